@@ -154,9 +154,7 @@ Section LocateMethods.
   Qed.
 
   (* the fallback (NumPy arrays) — a duplicate-free span and a label that is not a tuple *)
-  Definition not_pair (x : label) : Prop := match x with LPair _ _ => False | _ => True end.
-  Lemma arr_eq_scalar ls x : not_pair x -> arr_eq ls x = Some (map (fun y => label_eqb y x) ls).
-  Proof. destruct x; simpl; intros H; try reflexivity; contradiction. Qed.
+  (* since fix 35fe7e2 the comparison is element-wise for every label (a tuple label is ONE label): no condition on the label *)
   Lemma true_positions_nodup k x ls :
     NoDup ls ->
     true_positions k (map (fun y => label_eqb y x) ls) = match pos x ls with Some p => [k + Z.of_nat p] | None => [] end.
@@ -167,13 +165,13 @@ Section LocateMethods.
     - rewrite IH. destruct (pos x r); simpl; [f_equal; lia | reflexivity].
   Qed.
   Lemma locate_arr_spec ls x :
-    NoDup ls -> not_pair x ->
+    NoDup ls ->
     match pos x ls with
     | Some p => locate g (SArr ls) x = Ret (LPos (Z.of_nat p) true)
     | None => locate g (SArr ls) x = Raise KeyError
     end.
   Proof.
-    intros ND NP. rewrite locate_SArr. unfold fallback. rewrite arr_eq_scalar by exact NP.
+    intros ND. rewrite locate_SArr. unfold fallback, arr_eq.
     rewrite (true_positions_nodup 0 x ls ND). destruct (pos x ls); reflexivity.
   Qed.
 
@@ -184,9 +182,9 @@ Section LocateMethods.
     unfold cnt. revert k; induction ls as [|y r IH]; intros k; simpl; [reflexivity|].
     destruct (label_eqb y x); simpl; rewrite IH; reflexivity.
   Qed.
-  Lemma locate_arr_not_unique ls x : not_pair x -> cnt x ls <> 1%nat -> locate g (SArr ls) x = Raise KeyError.
+  Lemma locate_arr_not_unique ls x : cnt x ls <> 1%nat -> locate g (SArr ls) x = Raise KeyError.
   Proof.
-    intros NP H. rewrite locate_SArr. unfold fallback. rewrite arr_eq_scalar by exact NP.
+    intros H. rewrite locate_SArr. unfold fallback, arr_eq.
     pose proof (true_positions_length 0 x ls) as L.
     destruct (true_positions 0 (map (fun y => label_eqb y x) ls)) as [|i [|j r]]; simpl in *; try reflexivity.
     congruence.
@@ -204,18 +202,13 @@ Section LocateMethods.
     | SArr ls => NoDup ls
     | SPandas ls => locate_spec ls (fun x => to_KeyError (g ls x))
     end.
-  Definition label_ok (sp : span) (x : label) : Prop := match sp with SArr _ => not_pair x | _ => True end.
-  Lemma locate_meets_spec sp x :
-    span_ok sp -> label_ok sp x ->
-    match pos x (span_labels sp) with
-    | Some p => exists fl, locate g sp x = Ret (LPos (Z.of_nat p) fl)
-    | None => locate g sp x = Raise KeyError
-    end.
+  (* every span type at once: with span_ok the container's own lookup meets locate_spec for ALL labels *)
+  Lemma locate_meets_spec sp : span_ok sp -> locate_spec (span_labels sp) (locate g sp).
   Proof.
-    destruct sp as [ls|a s n|ls|ls]; simpl; intros Hs Hl.
+    destruct sp as [ls|a s n|ls|ls]; simpl; intros Hs x.
     - exact (locate_list_spec ls x).
     - exact (locate_range_spec a s n Hs x).
-    - pose proof (locate_arr_spec ls x Hs Hl) as H. destruct (pos x ls); [exists true|]; exact H.
+    - pose proof (locate_arr_spec ls x Hs) as H. destruct (pos x ls); [exists true|]; exact H.
     - exact (locate_pandas_spec ls Hs x).
   Qed.
 End LocateMethods.
